@@ -2,8 +2,109 @@
 import framegen
 
 
+def lit_section(fr, p):
+    """parse the literals section header of the compressed block whose header is at p ->
+    dict(type, sf, hlen, regen, comp, streams, tree_len, start) or None"""
+    q = p + 3
+    if q >= len(fr):
+        return None
+    b0 = fr[q]
+    ty, sf = b0 & 3, (b0 >> 2) & 3
+    if ty < 2:
+        return None
+    hlen = {0: 3, 1: 3, 2: 4, 3: 5}[sf]
+    if q + hlen > len(fr):
+        return None
+    v = int.from_bytes(fr[q:q + hlen], 'little') >> 4
+    nb = {0: 10, 1: 10, 2: 14, 3: 18}[sf]
+    regen, comp = v & ((1 << nb) - 1), (v >> nb) & ((1 << nb) - 1)
+    start = q + hlen
+    tree = 0
+    if ty == 2 and start < len(fr):
+        hb = fr[start]
+        tree = hb + 1 if hb < 128 else 1 + (hb - 127 + 1) // 2
+    return {'type': ty, 'sf': sf, 'hlen': hlen, 'regen': regen, 'comp': comp, 'streams': 1 if sf == 0 else 4,
+            'tree_len': tree, 'start': start}
+
+
+def targeted(rng, fr):
+    """mutations aimed at one decoder check each; -> (bytes, label) or None"""
+    w = framegen.walk_blocks(fr)
+    if not w:
+        return None
+    h, blocks, end = w
+    comp = [x for x in blocks if x[2] == 2 and x[4] > 8]
+    if not comp:
+        return None
+    b = bytearray(fr)
+    p = rng.choice(comp)[0]
+    ls = lit_section(fr, p)
+    if not ls:
+        return None
+    k = rng.below(4)
+    if k == 0 and ls['streams'] == 4:
+        # jump table: the three stream sizes end 0..8 bytes around the end of the literals payload
+        jt = ls['start'] + ls['tree_len']
+        payload = ls['comp'] - ls['tree_len'] - 6
+        if payload < 0 or jt + 6 > len(b):
+            return None
+        total = max(0, payload + rng.choice([-1, 0, 1, 2, 3, 4, 5, 6, 7, 8, 50]))
+        j1 = rng.below(total + 1)
+        j2 = rng.below(total - j1 + 1)
+        j3 = total - j1 - j2
+        for i, j in enumerate((j1, j2, j3)):
+            b[jt + 2 * i: jt + 2 * i + 2] = (j & 0xFFFF).to_bytes(2, 'little')
+        return bytes(b), 'jump-sum'
+    if k == 1:
+        # compressed -> treeless (or back): the table description becomes stream data / is missing
+        b[p + 3] = (b[p + 3] & ~3) | (3 if ls['type'] == 2 else 2)
+        return bytes(b), 'lit-type-flip'
+    if k == 2:
+        # compressed size field +-: the literals section ends elsewhere
+        nb = {0: 10, 1: 10, 2: 14, 3: 18}[ls['sf']]
+        v = int.from_bytes(b[p + 3:p + 3 + ls['hlen']], 'little')
+        comp2 = max(0, min((1 << nb) - 1, ls['comp'] + rng.choice([-7, -6, -1, 1, 6, 7, 100])))
+        v = (v & ~(((1 << nb) - 1) << (4 + nb))) | (comp2 << (4 + nb))
+        b[p + 3:p + 3 + ls['hlen']] = v.to_bytes(ls['hlen'], 'little')
+        return bytes(b), 'lit-comp-size'
+    # regenerated size field
+    nb = {0: 10, 1: 10, 2: 14, 3: 18}[ls['sf']]
+    v = int.from_bytes(b[p + 3:p + 3 + ls['hlen']], 'little')
+    reg2 = max(0, min((1 << nb) - 1, ls['regen'] + rng.choice([-1, 1, 2, 1000, -1000])))
+    v = (v & ~(((1 << nb) - 1) << 4)) | (reg2 << 4)
+    b[p + 3:p + 3 + ls['hlen']] = v.to_bytes(ls['hlen'], 'little')
+    return bytes(b), 'lit-regen-size'
+
+
+def tiny_huffman_frames(rng, n):
+    """hand-built frames: one compressed block, 2..4-symbol direct-weight Huffman table, 4 streams, the jump
+    table swept around the payload end (valid and invalid)"""
+    out = []
+    for _ in range(n):
+        nw = rng.choice([1, 2, 3])
+        weights = [1] * nw            # implied last weight completes the code
+        tree = bytes([127 + nw]) + bytes(((weights[i] << 4) | (weights[i + 1] if i + 1 < nw else 0)) for i in range(0, nw, 2))
+        payload = rng.bytes(rng.range(0, 12))
+        payload = bytes(x | 1 for x in payload[:-1]) + (bytes([payload[-1] | 0x80]) if payload else b'')
+        total = max(0, len(payload) + rng.choice([-2, -1, 0, 1, 2, 3, 4, 5, 6, 7]))
+        j1 = rng.below(total + 1); j2 = rng.below(total - j1 + 1); j3 = total - j1 - j2
+        jt = b''.join((j & 0xFFFF).to_bytes(2, 'little') for j in (j1, j2, j3))
+        comp = len(tree) + 6 + len(payload)
+        regen = rng.choice([4, 8, 16, 100])
+        sf = 1
+        hdr = ((2) | (sf << 2) | (regen << 4) | (comp << 14)).to_bytes(3, 'little')
+        body = hdr + tree + jt + payload + b'\x00'
+        blk = ((len(body) << 3) | (2 << 1) | 1).to_bytes(3, 'little') + body
+        out.append((framegen.frame_header_bytes(window_log=10, fcs=None, checksum=0) + blk, 'tiny-huffman'))
+    return out
+
+
 def corrupt(rng, fr):
     """-> (bytes, label)"""
+    if rng.below(3) == 0:
+        t = targeted(rng, fr)
+        if t:
+            return t
     b = bytearray(fr)
     w = framegen.walk_blocks(fr)
     kinds = ['bitflip', 'byte', 'truncate', 'insert', 'delete', 'blocksize', 'blocktype', 'lithdr', 'seqhdr', 'jump', 'tail', 'splice', 'desc', 'zero-run']
